@@ -44,7 +44,7 @@ class ParseLog:
     __slots__ = ("reads", "events", "builds", "transitions", "match_calls", "errors_added",
                  "la_calls", "queue_pops", "opaque", "scanner_kind", "source", "stop",
                  "outcome", "matcher_state_at_start", "builder_state_at_start", "ids",
-                 "_cur_la", "_built", "reset_calls", "n_match", "dialect_changes")
+                 "_cur_la", "_built", "reset_calls", "n_match", "dialect_changes", "tokens")
 
     def __init__(self):
         self.reads = []            # (scanner id, line, is_eof)
@@ -68,6 +68,12 @@ class ParseLog:
         self.reset_calls = 0
         self.n_match = 0
         self.dialect_changes = []
+        self.tokens = []
+
+
+def capture_tokens(on=True):
+    """Also snapshot the matched fields of every token that reaches the builder (this thread)."""
+    _tl.capture = on
 
 
 def current_log():
@@ -97,6 +103,12 @@ class _BuilderProxy:
         log.events.append(("build", kind, line))
         log.builds.append((line, kind))
         log._built += 1
+        if getattr(_tl, "capture", False):
+            log.tokens.append(None if token.eof() else {
+                "line": token.location.get("line"), "column": token.location.get("column"), "type": kind,
+                "keyword": getattr(token, "matched_keyword", None), "keyword_type": getattr(token, "matched_keyword_type", None),
+                "text": getattr(token, "matched_text", None),
+                "items": [(i["column"], i["text"]) for i in (getattr(token, "matched_items", None) or [])]})
         return self._real.build(token)
 
     def __getattr__(self, name):
